@@ -199,7 +199,7 @@ theorem classRules_first_match (st : Static) (pre post : List Rule) (rule : Rule
     simp only [List.nil_append] at h
     unfold classRules at h
     simp only [hm, if_true] at h
-    by_cases ht : wantsTrust rule c.req = true
+    by_cases ht : (wantsTrust rule c.req && !(trustName c.req).isEmpty) = true
     · simp only [ht, if_true, bind, Except.bind] at h
       split at h
       · cases h
